@@ -399,6 +399,8 @@ class HtmlToAst(HTMLParser):
         """Parse the source string."""
         self.struct.clear()
         super().feed(source)
+        # flush what the parser still buffers (e.g. an unterminated tag at the end)
+        self.close()
         return self.struct.outmost
 
     def parse_marked_section(self, i: int, report: int = 1) -> int:
